@@ -296,6 +296,16 @@ int _GD_Seek(DIRFILE *D, gd_entry_t *E, off64_t offset, unsigned int mode)
 
   switch (E->field_type) {
     case GD_RAW_ENTRY:
+      /* a write-mode seek creates the data file, and pads it on the next
+       * write: not in a fragment whose data are protected */
+      if ((mode & GD_FILE_WRITE) &&
+          (D->fragment[E->fragment_index].protection & GD_PROTECT_DATA))
+      {
+        _GD_SetError(D, GD_E_PROTECTED, GD_E_PROTECTED_DATA, NULL, 0,
+            D->fragment[E->fragment_index].cname);
+        break;
+      }
+
       /* open/create the file, if necessary */
       if (_GD_InitRawIO(D, E, NULL, -1, NULL, GD_EF_SEEK, mode,
             _GD_FileSwapBytes(D, E)))
